@@ -445,6 +445,24 @@ def raw_json_part(chk, tier):
                 if any(not valid_utf8(l) for l in data.split(b"\n")) and b"x" in data:
                     chk.nontrivial_case("raw:%d:%d:%s" % (k, ctx, mm))
         vlib.log("[C09] raw JSON part: %d runs, %d streams rejected by TLC" % (len(jobs), len(bad)))
+        # the printers behind a writer that accepts only a few bytes per write() call: same bytes as behind one that takes all
+        datas = {}
+        for (k, data, ctx, mm) in meta:
+            datas[k] = data
+        ljobs = [{"id": "%d:%d:%d" % (k, ctx, ch), "pattern": "x", "fixed": True, "input": list(d), "chunk": ch, "ctx": ctx}
+                 for k, d in sorted(datas.items()) if len(d) < 30000 for ctx in (0, 1) for ch in (1, 7, 61)]
+        louts = vlib.run_driver("print_lib", ljobs, parallel=8) if ljobs else []
+        chk.evaluations += 2 * len(ljobs)
+        for j, o in zip(ljobs, louts):
+            for which in ("std", "json"):
+                r = o.get(which, {"equal": False, "error": o.get("error")})
+                if r.get("equal"):
+                    chk.validated += 1
+                else:
+                    chk.violation({"variant": "short_writes", "printer": which, "chunk": j["chunk"], "context": j["ctx"]},
+                                  {"why": "the %s printer writes different bytes into a writer that accepts %d-%d bytes per call than into one "
+                                          "that accepts everything" % (which, j["chunk"], j["chunk"] + 2), "comparison": r,
+                                   "input": j["input"][:4000], "pattern": "x (fixed string)"})
     finally:
         sc.close()
 
